@@ -234,6 +234,17 @@ impl Sut for SpState {
         }
         self.check()
     }
+    fn warm(&self) {
+        let _ = catch(|| self.s.to_triplets());
+        let _ = catch(|| self.s.to_dense());
+        let _ = catch(|| self.s.col_index());
+        let _ = catch(|| self.s.transpose());
+        let _ = catch(|| self.s.multiply(&Vector::create(vec![r(1); self.cols])));
+        let _ = catch(|| self.s.transpose_multiply(&Vector::create(vec![r(1); self.rows])));
+        if self.rows > 0 && self.cols > 0 {
+            let _ = catch(|| self.s.get(self.rows - 1, self.cols - 1));
+        }
+    }
     fn check(&self) -> Result<(), String> {
         match self.mode {
             Mode::Views => views_check(&self.s, self.rows, self.cols, &self.m),
@@ -306,6 +317,7 @@ pub fn run_bfs(ctx: &Ctx, name: &str, shapes: &[(usize, usize)], mode: Mode, dep
     inits.push(unsorted_state(2, 3, mode));
     explore(ctx, name, inits.clone(), BfsOpts { max_depth: depth, state_cap: cap });
     if cross {
-        crosscheck_stateright(ctx, name, inits, depth);
+        crosscheck_stateright(ctx, name, inits.clone(), depth);
     }
+    explore_replayed(ctx, &format!("clone-free {}", name), inits, BfsOpts { max_depth: depth.saturating_sub(1).max(3), state_cap: 2_000_000 });
 }
